@@ -222,7 +222,7 @@ def generate(ctx, batch, idx):
         "probe_keys": r.random() < 0.5,
         # transplant tables the library has no decoder for (sfnt sources only)
         # tables as another conforming writer stores them (oracles.foreign; sfnt sources only)
-        "foreign": {"cmap": r.randrange(1 << 30) if r.random() < 0.12 else None, "gpos": r.randrange(1 << 30) if r.random() < 0.12 else None, "glyf": r.randrange(1 << 30) if r.random() < 0.12 else None, "dev": r.randrange(1 << 30) if r.random() < 0.1 else None, "post": r.randrange(1 << 30) if r.random() < 0.1 else None},
+        "foreign": {"cmap": r.randrange(1 << 30) if r.random() < 0.12 else None, "gpos": r.randrange(1 << 30) if r.random() < 0.12 else None, "glyf": r.randrange(1 << 30) if r.random() < 0.12 else None, "dev": r.randrange(1 << 30) if r.random() < 0.1 else None, "post": r.randrange(1 << 30) if r.random() < 0.1 else None, "fvar": r.randrange(1 << 30) if r.random() < 0.25 else None},
         "opaque": [[r.choice(["ZZZZ", "Xtra", "zz  ", "TeSt"]), r.choice([0, 1, 2, 3, 4, 7, 64]), r.choice(["nuls", "random", "nul-tail"]), r.randrange(1 << 30)] for _ in range(r.choice([0, 0, 1, 2]))],
     }
 
@@ -319,7 +319,7 @@ def _execute(ctx, h, scratch):
             pass
     foreign_tags = []
     fg = h.get("foreign") or {}
-    if any(fg.get(k_) is not None for k_ in ("cmap", "gpos", "glyf", "dev", "post")) and container.kind_of(src) == "sfnt":
+    if any(fg.get(k_) is not None for k_ in ("cmap", "gpos", "glyf", "dev", "post", "fvar")) and container.kind_of(src) == "sfnt":
         try:
             tabs = dict(container.tables_of(src))
             if fg.get("cmap") is not None and "cmap" in tabs:
@@ -328,10 +328,15 @@ def _execute(ctx, h, scratch):
                     tabs["cmap"] = c
                     foreign_tags.append("cmap")
             if fg.get("gpos") is not None and "maxp" in tabs and len(tabs["maxp"]) >= 6:
-                g = foreign.gpos_unsorted(struct.unpack_from(">H", tabs["maxp"], 4)[0], prng.sub("fgpos", fg["gpos"]))
+                g = (foreign.gpos_devices if fg["gpos"] % 3 == 0 else foreign.gpos_unsorted)(struct.unpack_from(">H", tabs["maxp"], 4)[0], prng.sub("fgpos", fg["gpos"]))
                 if g is not None:
                     tabs["GPOS"] = g[0]
                     foreign_tags.append("GPOS")
+            if fg.get("fvar") is not None and "fvar" in tabs:
+                fv_ = foreign.fvar_partial_psnames(tabs["fvar"], prng.sub("ffvar", fg["fvar"]))
+                if fv_ is not None:
+                    tabs["fvar"] = fv_
+                    foreign_tags.append("fvar")
             if fg.get("dev") is not None and "glyf" in tabs and "maxp" in tabs and len(tabs["maxp"]) >= 6:
                 # device-metrics tables of rasteriser-tuned TrueType fonts (no corpus font has them)
                 rr = prng.sub("fdev", fg["dev"])
@@ -557,7 +562,7 @@ def simplify(ctx, h):
         c = copy.deepcopy(h)
         c["lazy"] = None
         yield c
-    for k in ("cmap", "gpos", "glyf", "dev", "post"):
+    for k in ("cmap", "gpos", "glyf", "dev", "post", "fvar"):
         if (h.get("foreign") or {}).get(k) is not None:
             c = copy.deepcopy(h)
             c["foreign"][k] = None
